@@ -125,7 +125,31 @@ fn usage() -> ! {
     exit(2);
 }
 
+extern "C" {
+    fn mallopt(param: i32, value: i32) -> i32;
+}
+
+/// glibc raises its mmap threshold dynamically (up to 32 MiB) after large blocks are freed; the
+/// multi-megabyte frames of the larger size classes are then served from the per-thread arenas,
+/// which fragment and are never trimmed: a long thorough run grew to tens of GiB. Pin the
+/// threshold so that every large buffer is mapped and unmapped individually.
+fn tune_allocator() {
+    const M_TRIM_THRESHOLD: i32 = -1;
+    const M_MMAP_THRESHOLD: i32 = -3;
+    const M_ARENA_MAX: i32 = -8;
+    // Miri cannot call into the C allocator API
+    if cfg!(miri) {
+        return;
+    }
+    unsafe {
+        mallopt(M_MMAP_THRESHOLD, 256 * 1024);
+        mallopt(M_TRIM_THRESHOLD, 1024 * 1024);
+        mallopt(M_ARENA_MAX, 16);
+    }
+}
+
 fn main() {
+    tune_allocator();
     fe::install_panic_hook();
     let args: Vec<String> = std::env::args().skip(1).collect();
     if args.is_empty() {
@@ -203,8 +227,13 @@ fn main() {
         "gen" => {
             let s = scenario_by_name(&args[1]).unwrap_or_else(|| usage());
             let idx: u64 = args[2].parse().unwrap();
-            let (seed, case) = runner::gen_case(&s, env_u64("VERIF_SEED", 1), Tier::Quick, idx);
-            println!("seed={seed}\n{}", serde_json::to_string_pretty(&case).unwrap());
+            let tier = if args.iter().any(|a| a == "--thorough") { Tier::Thorough } else { Tier::Quick };
+            let (seed, case) = runner::gen_case(&s, env_u64("VERIF_SEED", 1), tier, idx);
+            let text = serde_json::to_string_pretty(&case).unwrap();
+            println!("seed={seed}\n{}", if text.len() > 20_000 { format!("{}…({} bytes)", &text[..text.char_indices().nth(6000).map(|x| x.0).unwrap_or(text.len())], text.len()) } else { text });
+            if args.iter().any(|a| a == "--norun") {
+                exit(0);
+            }
             let out = runner::run_case(s.run, &case, true);
             for v in &out.violations {
                 println!("violation {}: {}", v.signature, v.detail);
